@@ -6,6 +6,11 @@
 (* schedule.que) instead of environment bits, dispatch runs only while the *)
 (* pipeline is active, and a (re)load rebuilds the scheduler.              *)
 (*                                                                         *)
+(* Worker scarcity (farm._cluster / farm._workers) is part of the product: *)
+(* a released unit waits in the farm (`park`) until a registered worker    *)
+(* (`free`) is there at a dispatch, and the archive trigger of dispatch    *)
+(* fires only when nothing is released, executing OR parked.               *)
+(*                                                                         *)
 (* One fixed program  a (task) -> b (task)  on one target keeps the        *)
 (* product small; what is new here is the coupling, not the parts.         *)
 (*                                                                         *)
@@ -36,13 +41,15 @@ VARIABLES
     old,                    \* SUBSET Alg: units in flight abandoned by the load that is under way (farm cleared, graph not rebuilt yet)
     anc,                    \* SUBSET Alg: units in flight that were released before the current graph was built
     arch,                   \* farm.ARCHIVE
+    park,                   \* SUBSET Alg: released by the scheduler, waiting in farm._cluster for a worker (not in flight)
+    free,                   \* 0..1: registered workers that hold no task (farm._workers); more come with a plentiful dispatch
     \* ---- life cycle
     st, tr, prior, bg, prio, wait, slot, sub, subp,
     \* ---- history of this step
     fire,                   \* "none" or the priority under which update_trigger was accepted, with the ground truth at that instant
     nfired, runs, nsub, ncyc
 
-svars == <<todo, doing, hand, que, status, fly, old, anc, arch>>
+svars == <<todo, doing, hand, que, status, fly, old, anc, arch, park, free>>
 lvars == <<st, tr, prior, bg, prio, wait, slot, sub, subp>>
 vars == <<svars, lvars, fire, nfired, runs, nsub, ncyc>>
 
@@ -55,13 +62,14 @@ QueView   == que # {}
 CondView(k) == CASE k = "crew" -> ~BusyViewNow [] k = "doing" -> ~DoingView [] k = "todo" -> ~QueView
 \* ground truth
 Executing == fly # {}
-Pending == \E x \in Alg : todo[x]
+Pending == (\E x \in Alg : todo[x]) \/ park # {}     \* a released unit that waits in the farm for a worker is still pending work
 NoFire == [p |-> "none", src |-> "none", executing |-> FALSE, pending |-> FALSE]
 Fire(src, p) == [p |-> p, src |-> src, executing |-> Executing, pending |-> Pending]
 
 Init ==
     /\ todo = [x \in Alg |-> FALSE] /\ doing = [x \in Alg |-> FALSE] /\ hand = [x \in Alg |-> FALSE]
     /\ que = {} /\ status = [x \in Alg |-> "initial"] /\ fly = {} /\ old = {} /\ anc = {} /\ arch = FALSE
+    /\ park = {} /\ free = 0
     /\ st = "running" /\ tr = "active" /\ prior = "none" /\ bg = {} /\ prio = "none" /\ wait = NoWait
     /\ slot = [k \in K |-> "none"] /\ sub = "idle" /\ subp = "none"
     /\ fire = NoFire /\ nfired = 0 /\ runs = 0 /\ nsub = 0 /\ ncyc = 0
@@ -75,24 +83,41 @@ Run(x) ==           \* cmd_run -> organize
     /\ que' = que \cup {x}
     /\ status' = [status EXCEPT ![x] = IF @ = "running" THEN "running" ELSE "waiting"]
     /\ fire' = NoFire
-    /\ UNCHANGED <<doing, hand, fly, old, anc, arch, lvars, nfired, nsub, ncyc>>
+    /\ UNCHANGED <<doing, hand, fly, old, anc, arch, park, free, lvars, nfired, nsub, ncyc>>
 
 Blocked(x) == x = B /\ A \in que /\ (todo[A] \/ doing[A] \/ hand[A])
 Avail(x) == x \in que /\ todo[x] /\ ~Blocked(x) /\ ~doing[x] /\ ~hand[x]
 
-Tick ==             \* farm.dispatch: only while active; archive trigger when idle with new data
+WorkerArrive ==     \* Hand._reg: a worker of the current revision registers and waits (whatever the life-cycle state)
+    /\ free = 0 /\ free' = 1
+    /\ fire' = NoFire
+    /\ UNCHANGED <<todo, doing, hand, que, status, fly, old, anc, arch, park, lvars, nfired, runs, nsub, ncyc>>
+
+Min2(a, b) == IF a < b THEN a ELSE b
+Tick(sc) ==         \* farm.dispatch: only while active; archive trigger when idle with new data.
+                    \* sc: scarce -- only the workers that registered on their own are there; otherwise enough workers
+                    \* register just before the dispatch and the idle ones leave after it
     /\ IsActive
-    /\ LET rel == { x \in Alg : Avail(x) } IN
-       IF rel = {} /\ arch /\ fly = {}
-       THEN \* archiving_trigger: running -> archiving (before save_prior_state, after archive)
+    /\ LET rel == { x \in Alg : Avail(x) }
+           cand == park \cup rel
+           nw == IF sc THEN free ELSE Cardinality(Alg)
+       IN
+       IF rel = {} /\ arch /\ fly = {} /\ park = {}
+       THEN \* archiving_trigger: running -> archiving (before save_prior_state, after archive);
+            \* notify_all() at the end of the pass tells the waiting workers to leave
             /\ prior' = "running" /\ st' = "archiving" /\ tr' = "entering" /\ bg' = bg \cup {"archive"}
-            /\ UNCHANGED <<svars, prio, wait, slot, sub, subp>>
-       ELSE /\ rel # {}
+            /\ free' = 0
+            /\ UNCHANGED <<todo, doing, hand, que, status, fly, old, anc, arch, park, prio, wait, slot, sub, subp>>
+       ELSE /\ (rel # {} \/ (park # {} /\ nw > 0) \/ (~sc /\ free > 0))
             /\ todo' = [x \in Alg |-> todo[x] /\ x \notin rel]
             /\ doing' = [x \in Alg |-> doing[x] \/ x \in rel]
             /\ hand' = [x \in Alg |-> hand[x] \/ x \in rel]
             /\ status' = [x \in Alg |-> IF x \in rel THEN "running" ELSE status[x]]
-            /\ fly' = fly \cup rel
+            /\ \E P \in SUBSET cand :
+                  /\ Cardinality(P) = Min2(Cardinality(cand), nw)
+                  /\ fly' = fly \cup P
+                  /\ park' = cand \ P
+                  /\ free' = IF sc THEN free - Cardinality(P) ELSE 0
             /\ UNCHANGED <<que, old, anc, arch, lvars>>
     /\ fire' = NoFire
     /\ UNCHANGED <<nfired, runs, nsub, ncyc>>
@@ -125,7 +150,7 @@ Reply(x, ok, new) ==   \* Hand._res for a unit released since the last load
     /\ fly' = fly \ {x}
     /\ Apply(x, ok, new)
     /\ fire' = NoFire
-    /\ UNCHANGED <<old, anc, lvars, nfired, runs, nsub, ncyc>>
+    /\ UNCHANGED <<old, anc, park, free, lvars, nfired, runs, nsub, ncyc>>
 
 OldReply(x) ==      \* a result of work released before the last load: ignored once the new graph is built; while the
                     \* load is still under way (farm cleared, graph not yet rebuilt) it is applied to the graph that is about to be discarded
@@ -135,7 +160,7 @@ OldReply(x) ==      \* a result of work released before the last load: ignored o
        \/ /\ x \in anc /\ anc' = anc \ {x} /\ old' = old
           /\ UNCHANGED <<todo, doing, hand, que, status, arch>>
     /\ fire' = NoFire
-    /\ UNCHANGED <<fly, lvars, nfired, runs, nsub, ncyc>>
+    /\ UNCHANGED <<fly, park, free, lvars, nfired, runs, nsub, ncyc>>
 
 (* ---- life cycle ------------------------------------------------------------ *)
 DoUpdate(src, p) ==
@@ -151,7 +176,7 @@ CompleteReload ==   \* reload done -> archiving (-> archive thread, or straight 
        ELSE \* loading_trigger: reset(); load(): farm.notify_all(); farm.clear()
             /\ st' = "loading" /\ tr' = "entering" /\ bg' = (bg \ {"reload"}) \cup {"load"}
             /\ prio' = "none" /\ wait' = NoWait /\ nfired' = 0
-            /\ old' = old \cup fly /\ fly' = {}
+            /\ old' = old \cup fly /\ fly' = {} /\ park' = {} /\ free' = 0     \* farm.notify_all(); farm.clear()
             /\ UNCHANGED <<todo, doing, hand, que, status, anc, arch>>
     /\ fire' = NoFire
     /\ UNCHANGED <<slot, sub, subp, runs, nsub, ncyc>>
@@ -161,10 +186,10 @@ CompleteArchive ==
     /\ arch' = FALSE
     /\ IF prior = "running"
        THEN /\ st' = "running" /\ tr' = "active" /\ bg' = bg \ {"archive"}
-            /\ UNCHANGED <<todo, doing, hand, que, status, fly, old, anc, prio, wait, nfired>>
+            /\ UNCHANGED <<todo, doing, hand, que, status, fly, old, anc, park, free, prio, wait, nfired>>
        ELSE /\ st' = "loading" /\ tr' = "entering" /\ bg' = (bg \ {"archive"}) \cup {"load"}
             /\ prio' = "none" /\ wait' = NoWait /\ nfired' = 0
-            /\ old' = old \cup fly /\ fly' = {}
+            /\ old' = old \cup fly /\ fly' = {} /\ park' = {} /\ free' = 0
             /\ UNCHANGED <<todo, doing, hand, que, status, anc>>
     /\ fire' = NoFire
     /\ UNCHANGED <<prior, slot, sub, subp, runs, nsub, ncyc>>
@@ -176,7 +201,7 @@ CompleteLoad ==     \* _pipeline: schedule.build -> fresh graph, empty queue; th
     /\ anc' = anc \cup old /\ old' = {}
     /\ st' = "contemplation" /\ tr' = "entering" /\ bg' = (bg \ {"load"}) \cup {"navel"}
     /\ fire' = NoFire
-    /\ UNCHANGED <<fly, arch, prior, prio, wait, slot, sub, subp, nfired, runs, nsub, ncyc>>
+    /\ UNCHANGED <<fly, arch, park, free, prior, prio, wait, slot, sub, subp, nfired, runs, nsub, ncyc>>
 
 CompleteNavel ==
     /\ "navel" \in bg /\ st = "contemplation"
@@ -228,7 +253,7 @@ PollerDone(k) ==
 
 Next ==
     \/ \E x \in Alg : Run(x)
-    \/ Tick
+    \/ (\E sc \in BOOLEAN : Tick(sc)) \/ WorkerArrive
     \/ \E x \in Alg, ok \in BOOLEAN, new \in BOOLEAN : Reply(x, ok, new)
     \/ \E x \in Alg : OldReply(x)
     \/ CompleteReload \/ CompleteArchive \/ CompleteLoad \/ CompleteNavel \/ CmdReset
@@ -251,5 +276,11 @@ SYS_ViewsTruthful ==          \* what the pollers read never understates the tru
     /\ (Executing => (BusyViewNow /\ DoingView))
     /\ ((Pending \/ Executing) => QueView)
 SYS_IdleMeansIdle == (st # "loading" /\ ~Pending /\ ~Executing) => ~QueView    \* units abandoned by a load may still be answering
+(* C03 "a released unit is handed to at most one worker and otherwise stays queued": outside a load every unit the
+   scheduler holds as handed out is either in flight or still waiting in the farm, never both, never neither *)
+SYS_ReleasedFlyOrParked == (st # "loading") => \A x \in Alg : hand[x] <=> (x \in fly \/ x \in park)
+SYS_ParkedNotFlying == park \cap fly = {}
+(* the archive (running -> archiving) never starts while released work waits in the farm *)
+SYS_NoArchiveOverParked == [][ (st = "running" /\ st' = "archiving") => (park = {} /\ fly = {}) ]_vars
 SYS_Rest == bg = {} => (st \in {"running", "gitting"} /\ tr = "active")
 =============================================================================
